@@ -692,6 +692,36 @@ def run(ctx):
         elif n:
             ctx.notes["uring_route"] = (f"{stats['uring_via_uring']} requests completed through io_uring, "
                                         f"{stats['uring_via_pool']} of that route's requests went to the thread pool (ops without a submitter)")
+    # forced -EOPNOTSUPP completion (fallback of uv__poll_io_uring to the thread pool): same lines as unforced, no leak
+    fexe = ctx.harness("c11_fallback", ["harness/c11_fallback.c"], link_lib=True) if not ctx.replay else None
+    if fexe:
+        outs = {}
+        for f in (0, 1):
+            d = ctx.tmp / f"fb{f}"; d.mkdir()
+            rc, out, err = ctx.run(fexe, [d, f], env={"UV_USE_IO_URING": "1"}, timeout=120)
+            outs[f] = (rc, [l for l in out.splitlines() if not l.startswith("forced ")], err)
+            ctx.count()
+        if outs[0][1][:1] == ["ROUTE-SKIPPED"]:
+            ctx.notes["uring_fallback_probe"] = "skipped: no SQPOLL ring"
+        else:
+            rc1, l1, e1 = outs[1]
+            ctx.notes["uring_fallback_probe"] = f"{len(l1) - 1} idempotent ops completed with a forced -EOPNOTSUPP CQE and re-run in the thread pool"
+            if outs[0][0] != 0:
+                ctx.violation("uring-probe-unforced-crash", f"C11 fallback probe (unforced) exited {outs[0][0]}: {outs[0][2][-500:]}", {"mode": "fallback", "force": 0})
+            elif rc1 != 0 and "uv__iou_fs_statx" in e1 and "leak" in e1:
+                ctx.violation("uring-eopnotsupp-stat-fallback-leak",
+                              "C11: a stat/lstat/fstat whose io_uring completion is -EOPNOTSUPP is re-posted to the thread pool with req->ptr still "
+                              "holding the malloc'd statx buffer; uv__fs_work overwrites req->ptr on success -> buffer leaked (LeakSanitizer: "
+                              f"{e1.count('Direct leak')} x 256 bytes from uv__iou_fs_statx); on failure the callback sees a non-NULL req->ptr",
+                              {"mode": "fallback", "force": 1})
+            elif rc1 != 0:
+                ctx.violation("uring-eopnotsupp-fallback-crash", f"C11 fallback probe exited {rc1}: {e1[-600:]}", {"mode": "fallback", "force": 1})
+            elif l1 != outs[0][1]:
+                k = next((i for i in range(min(len(l1), len(outs[0][1]))) if l1[i] != outs[0][1][i]), 0)
+                ctx.violation("uring-eopnotsupp-fallback-differs", f"C11: forced -EOPNOTSUPP fallback: `{l1[k]}` vs unforced `{outs[0][1][k]}`",
+                              {"mode": "fallback", "force": 1})
+            else:
+                ctx.validated()
     if (ctx.broken or not proofs_ok) and not ctx.violations and uexe:
         ctx.log("obligation broken; searching for a failing input with the monitors")
         srng = SplitMix(ctx.seed + 4242)
